@@ -581,7 +581,7 @@ impl Prop for C23 {
     }
     fn cases(&self, tier: Tier) -> u64 {
         match tier {
-            Tier::Quick => 24_000,
+            Tier::Quick => 96_000,
             Tier::Thorough => 600_000,
         }
     }
